@@ -113,14 +113,20 @@ Definition C07_model_ok (c : C07_case) : bool :=
     (c7_kept c <=? 4 * dec_mem (c7_bytes c) + 512))).
 
 (* the property: a value or an error, never a panic; peak memory within a small multiple
-   of the input length *)
-Definition MEM_C : Z := 128.
+   of the input length; and (the cost part of the work item) the bytes requested from the
+   allocator over the whole call within a multiple of the input length *)
+Definition MEM_C : Z := 64.
 Definition MEM_K : Z := 4096.
+Definition ALLOC_C : Z := 256.
+Definition ALLOC_K : Z := 8192.
 Definition C07_oracle_ok (c : C07_case) : bool :=
-  negb (is_panic (c7_out c)) && (c7_peak c <=? MEM_C * len (c7_bytes c) + MEM_K).
+  negb (is_panic (c7_out c)) && (c7_peak c <=? MEM_C * len (c7_bytes c) + MEM_K) &&
+  (c7_alloc c <=? ALLOC_C * len (c7_bytes c) + ALLOC_K).
 
 (* class 1: NACK_FRAG with numBits > 256 or base + bit > u32::MAX (C07-fragset-numbits)
-   class 2: INFO_REPLY locator count larger than the submessage (C07-inforeply-overread) *)
+   class 2: INFO_REPLY locator count larger than the submessage (C07-inforeply-overread)
+   class 3: failing DATA/DATA_FRAG of length 0, rescanned (C07-data-rescan) *)
 Definition C07_known (c : C07_case) : N :=
   if C07_known_fnset (c7_bytes c) then 1%N
-  else if C07_known_overread (c7_bytes c) then 2%N else 0%N.
+  else if C07_known_overread (c7_bytes c) then 2%N
+  else if C07_known_rescan (c7_bytes c) then 3%N else 0%N.
